@@ -7,6 +7,19 @@ use serde_json::Value;
 
 pub fn check(name: &str, case: &Value, v: &Violation) -> bool {
     match name {
+        "definition_added_twice" => {
+            let mut seen = std::collections::BTreeSet::new();
+            let mut twice = false;
+            for h in case.get("history").and_then(|h| h.as_array()).into_iter().flatten() {
+                let defs = h.get("defs").or_else(|| h.get("doc").and_then(|d| d.get("definitions")));
+                for k in defs.and_then(|d| d.as_object()).map(|o| o.keys().cloned().collect::<Vec<_>>()).unwrap_or_default() {
+                    if !seen.insert(k) {
+                        twice = true;
+                    }
+                }
+            }
+            twice
+        }
         "names_collide_after_sanitisation" => {
             let pascal = case.get("use").and_then(|u| u.as_str()) != Some("prop");
             let names: Vec<String> = case.get("names").and_then(|n| n.as_array()).map(|a| a.iter().filter_map(|x| x.as_str().map(|s| crate::gen::names::sanitize_like(s, pascal))).collect()).unwrap_or_default();
